@@ -225,6 +225,41 @@ def run(ck: Check):
             ck.count("typed_stream_runs")
             if got != base:
                 ck.violation(dict(clause="incremental-vs-batch", detector="IncrementalKSTest", input_type=ty_name), dict(what="results differ when the same values arrive as another numeric type", input_type=ty_name, reference=ref.tolist(), stream=stream, window_size=w, got=got, as_float=base))
+    # (4c) reset() followed by fit(): nothing until window_size NEW values have arrived, then the batch test on the last
+    #      window_size values seen since the reset (values from before the reset must leave no trace)
+    for _ in range(6 if not thorough else 40):
+        w = rng.choice([2, 3, 5])
+        ref1 = np.array([rng.gauss(0, 1) for _ in range(rng.choice([6, 11]))])
+        ref2 = np.array([rng.gauss(0.5, 1) for _ in range(rng.choice([7, 9]))]) if rng.random() < 0.5 else ref1
+        pre = [rng.gauss(3, 1) for _ in range(w + rng.choice([0, 1, 4]))]
+        post = [rng.gauss(0.2, 1) for _ in range(w + 3)]
+        d = IncrementalKSTest(window_size=w)
+        try:
+            d.fit(X=ref1)
+            for v in pre:
+                d.update(value=v)
+            d.reset()
+            d.fit(X=ref2)
+            got = []
+            for v in post:
+                r, _ = d.update(value=v)
+                got.append(None if r is None else (float(r.statistic), float(r.p_value)))
+        except Exception as e:  # noqa: BLE001
+            ck.violation(dict(clause="raises", detector="IncrementalKSTest", error=type(e).__name__, scenario="reset-fit"), dict(what="update failed after reset() + fit()", window_size=w, reference=ref2.tolist(), pre=pre, post=post, error=repr(e)))
+            continue
+        ck.case(dict(kind="reset-then-fit", window=w, pre=len(pre)), nontrivial=True, key=repr(("resetfit", w, pre, post)))
+        ck.count("reset_fit_histories")
+        for t, g in enumerate(got):
+            if t + 1 < w:
+                if g is not None:
+                    ck.violation(dict(clause="warm-up", detector="IncrementalKSTest", scenario="reset-fit"), dict(what="a result is returned before window_size values have arrived since the reset", window_size=w, step_since_reset=t + 1, result=g, pre=pre, post=post[: t + 1], reference=ref2.tolist()))
+                    break
+                continue
+            ks.fit(X=ref2)
+            b, _ = ks.compare(X=np.array(post[t + 1 - w : t + 1]))
+            if g is None or not close(g[0], float(b.statistic), 1e-12, 1e-12) or not close(g[1], float(b.p_value), 1e-9, 1e-12):
+                ck.violation(dict(clause="incremental-vs-batch", detector="IncrementalKSTest", scenario="reset-fit"), dict(what="after reset() + fit() the result differs from the batch test on the last window_size values seen since the reset", window_size=w, step_since_reset=t + 1, incremental=g, batch=(float(b.statistic), float(b.p_value)), pre=pre, post=post[: t + 1], reference=ref2.tolist()))
+                break
     # (5) re-fit without reset (fit replaces the reference, keeps the window): every result must be the batch test
     #     on (current reference, last window), across the 10 000 boundary in both directions
     plans = [(6, 9, 4), (9, 6, 3), (5, 10001, 3), (10001, 5, 3)] + ([(40, 10050, 8), (10050, 40, 8)] if thorough else [])
